@@ -111,6 +111,17 @@ def check(rep, model, tier):
             rep.ok('EMPTY-EPOCH', det, dsite, found='no unguarded constant-index store')
     common.roview(rep, model, ['detect_bursts_cycles', 'detect_bursts_amp', 'epoch_df'])
     rep.rule('EFF-ROVIEW', 'no write into a read-only array view of a pandas object on the re-labelling path')
+    rep.rule('EPOCH-OWN-OPTIONS', 'the per-epoch loop reads burst_method / threshold_kwargs of each option set without consuming them: an option set listed at two positions '
+                                  '([kw] * n, or [a, b, a]) stays ONE object after deepcopy, so a pop while re-labelling the first of them leaves the others with defaults')
+    for label in ('list2', 'list3'):
+        res, ctx = grp.run2d(model, scen[label], NONE)
+        eaten = sorted({(T.show(e['args'][1]), e['where']) for e in ctx.trace if e['kind'] == 'mutate' and e['name'] == 'pop' and e.get('element_of')
+                        and e['args'][1] in (C('burst_method'), C('threshold_kwargs'))})
+        if eaten:
+            rep.violation('EPOCH-OWN-OPTIONS', label, eaten[0][1] or gsite, expected='options read with .get / [] (or popped from a per-iteration copy)',
+                          found=f'popped from the list element itself: {[k for k, _ in eaten]}', key='EPOCH-OWN-OPTIONS@' + label)
+        else:
+            rep.ok('EPOCH-OWN-OPTIONS', label, gsite, found='no consuming read of a per-epoch option set')
     rep.rule('COPY-FIRST', 'compute_features_2d consumes the per-epoch option dictionaries with pop(): it does so on its own deep copy and writes through none of its arguments, so a '
                            'per-epoch list re-labels each epoch with its own thresholds on every call, not only the first (shared with C11 / C15)')
     common.args_intact(rep, model, ['compute_features_2d', 'epoch_df'], rule='COPY-FIRST', why='the per-epoch option list is read again by the next call')
